@@ -48,10 +48,17 @@ pub enum Node {
     If(u16, Vec<bool>, Vec<Node>),
     IfElse(u16, Vec<bool>, Vec<Node>, Vec<Node>),
     Scope(Vec<Node>),
+    /// `Scope::new_with`: a state initialiser that creates marker 3 inside the scope and a merge function that adds
+    /// 1000 to the caller's counter (both traced, both possible fault points)
+    ScopeWith(Vec<Node>),
 }
 
 #[derive(Clone, Debug, Serialize, Deserialize, PartialEq, Eq)]
 pub enum Ev {
+    /// state initialiser of a `ScopeWith`
+    SInit,
+    /// merge function of a `ScopeWith`
+    SMerge,
     Init(u16),
     Require(u16),
     Exec(u16),
@@ -69,6 +76,10 @@ pub struct Case {
     pub outer_scope: bool,
     /// index (into the fault-free reference trace) of the event that fails; None = no fault
     pub fault: Option<u16>,
+    /// an iteration counter left in the caller's scope before the run (a state that was used for an earlier run, or
+    /// pre-seeded by the caller): a loop initialised in that scope starts counting from zero regardless
+    #[serde(default)]
+    pub seed_iterations: Option<u32>,
 }
 
 // ------------------------------------------------------------------------------------------------
@@ -152,6 +163,20 @@ fn m_top(state: &StateRegistry, k: u8) -> Option<i64> {
 pub struct Counter(pub i64);
 impl CustomState<'_> for Counter {}
 
+fn scope_with_init(state: &mut State<RealP>) -> ExecResult<()> {
+    emit(Ev::SInit)?;
+    m_insert(state, 3, 77);
+    Ok(())
+}
+
+fn scope_with_merge(state: &mut State<RealP>, _inner: State<RealP>) -> ExecResult<()> {
+    emit(Ev::SMerge)?;
+    if let Ok(mut c) = state.try_borrow_mut::<Counter>() {
+        c.0 += 1000;
+    }
+    Ok(())
+}
+
 #[derive(Clone, Serialize)]
 pub struct LeafC {
     pub id: u16,
@@ -229,6 +254,7 @@ fn build_direct(nodes: &[Node]) -> Vec<Box<dyn Component<RealP>>> {
                 Node::If(c, s, b) => Branch::new(Box::new(ScriptC { id: *c, script: s.clone() }), build_direct(b)),
                 Node::IfElse(c, s, a, b) => Branch::new_with_else(Box::new(ScriptC { id: *c, script: s.clone() }), build_direct(a), build_direct(b)),
                 Node::Scope(b) => Scope::new(build_direct(b)),
+                Node::ScopeWith(b) => Scope::new_with(scope_with_init, build_direct(b), scope_with_merge),
             }
         })
         .collect()
@@ -243,6 +269,7 @@ fn build_builder(nodes: &[Node], mut b: mahf::configuration::ConfigurationBuilde
             Node::If(c, s, body) => b.if_(Box::new(ScriptC { id: *c, script: s.clone() }), |bb| build_builder(body, bb)),
             Node::IfElse(c, s, x, y) => b.if_else_(Box::new(ScriptC { id: *c, script: s.clone() }), |bb| build_builder(x, bb), |bb| build_builder(y, bb)),
             Node::Scope(body) => b.scope_(|bb| build_builder(body, bb)),
+            Node::ScopeWith(body) => b.do_(Scope::new_with(scope_with_init, build_builder(body, Configuration::builder()).build_component(), scope_with_merge)),
         };
     }
     b
@@ -314,7 +341,7 @@ impl Model {
                     self.init(a)?;
                     self.init(b)?;
                 }
-                Node::Scope(_) => {}
+                Node::Scope(_) | Node::ScopeWith(_) => {}
             }
         }
         Ok(())
@@ -340,7 +367,7 @@ impl Model {
                     self.require(a)?;
                     self.require(b)?;
                 }
-                Node::Scope(_) => {}
+                Node::Scope(_) | Node::ScopeWith(_) => {}
             }
         }
         Ok(())
@@ -401,6 +428,20 @@ impl Model {
                     self.scopes.pop();
                     r?;
                 }
+                Node::ScopeWith(b) => {
+                    self.scopes.push(ScopeM::default());
+                    self.max_scope_depth = self.max_scope_depth.max(self.scopes.len());
+                    let r = self.emit(Ev::SInit).and_then(|_| {
+                        self.scopes.last_mut().unwrap().markers.insert(3, 77);
+                        self.init(b)
+                    });
+                    let r = r.and_then(|_| self.require(b)).and_then(|_| self.exec(b));
+                    self.scopes.pop();
+                    // the merge function only runs for a scope that completed
+                    r?;
+                    self.emit(Ev::SMerge)?;
+                    self.counter += 1000;
+                }
             }
         }
         Ok(())
@@ -428,6 +469,7 @@ fn model_for(case: &Case, fault_at: Option<usize>) -> Model {
             s.markers.insert(k as u8, *v);
         }
     }
+    s.iterations = case.seed_iterations;
     scopes.push(s);
     Model { scopes, counter: 0, trace: Vec::new(), cond_pos: BTreeMap::new(), fault_at, loop_passes: 0, max_scope_depth: 0, fault_depth: None }
 }
@@ -441,7 +483,7 @@ fn count_nodes(nodes: &[Node]) -> usize {
         .iter()
         .map(|n| match n {
             Node::Leaf(..) => 1,
-            Node::Seq(b) | Node::Scope(b) | Node::While(_, _, b) | Node::If(_, _, b) => 1 + count_nodes(b),
+            Node::Seq(b) | Node::Scope(b) | Node::ScopeWith(b) | Node::While(_, _, b) | Node::If(_, _, b) => 1 + count_nodes(b),
             Node::IfElse(_, _, a, b) => 1 + count_nodes(a) + count_nodes(b),
         })
         .sum()
@@ -453,7 +495,7 @@ fn nested_depth(nodes: &[Node], d: usize) -> usize {
         .iter()
         .map(|n| match n {
             Node::Leaf(..) => d,
-            Node::Seq(b) | Node::Scope(b) | Node::While(_, _, b) | Node::If(_, _, b) => nested_depth(b, d + 1).max(d + 1),
+            Node::Seq(b) | Node::Scope(b) | Node::ScopeWith(b) | Node::While(_, _, b) | Node::If(_, _, b) => nested_depth(b, d + 1).max(d + 1),
             Node::IfElse(_, _, a, b) => nested_depth(a, d + 1).max(nested_depth(b, d + 1)).max(d + 1),
         })
         .max()
@@ -464,7 +506,7 @@ fn has_kind(nodes: &[Node], f: &dyn Fn(&Node) -> bool) -> bool {
     nodes.iter().any(|n| {
         f(n) || match n {
             Node::Leaf(..) => false,
-            Node::Seq(b) | Node::Scope(b) | Node::While(_, _, b) | Node::If(_, _, b) => has_kind(b, f),
+            Node::Seq(b) | Node::Scope(b) | Node::ScopeWith(b) | Node::While(_, _, b) | Node::If(_, _, b) => has_kind(b, f),
             Node::IfElse(_, _, a, b) => has_kind(a, f) || has_kind(b, f),
         }
     })
@@ -495,7 +537,7 @@ impl Check for ConfigCheck {
     fn oracle(&self, case: &Case) -> Outcome {
         let mut classes = 0;
         let r = run_case(case, &mut classes);
-        let nt = classes & (CL_LOOP_PASS | CL_NESTED2) == (CL_LOOP_PASS | CL_NESTED2) && (has_kind(&case.tree, &|n| matches!(n, Node::Scope(_) | Node::If(..) | Node::IfElse(..))));
+        let nt = classes & (CL_LOOP_PASS | CL_NESTED2) == (CL_LOOP_PASS | CL_NESTED2) && (has_kind(&case.tree, &|n| matches!(n, Node::Scope(_) | Node::ScopeWith(_) | Node::If(..) | Node::IfElse(..))));
         Outcome::new(nt, classes, r)
     }
 }
@@ -517,6 +559,9 @@ fn run_real(case: &Case, cfg: &Configuration<RealP>, fault_at: Option<usize>) ->
         }
     }
     state.insert(Counter(0));
+    if let Some(v) = case.seed_iterations {
+        state.insert(Iterations(v));
+    }
     let r = catch(|| cfg.run(&problem, &mut state));
     let result = match r {
         Ok(Ok(())) => Ok(()),
@@ -546,7 +591,7 @@ fn run_case(case: &Case, classes: &mut u64) -> Result<(), Failure> {
     if nested_depth(&case.tree, 0) >= 2 {
         *classes |= CL_NESTED2;
     }
-    if has_kind(&case.tree, &|n| matches!(n, Node::Scope(_))) {
+    if has_kind(&case.tree, &|n| matches!(n, Node::Scope(_) | Node::ScopeWith(_))) {
         *classes |= CL_SCOPE;
     }
     if has_kind(&case.tree, &|n| matches!(n, Node::While(..))) && m.trace.iter().any(|e| matches!(e, Ev::CEval(_, false))) {
@@ -647,7 +692,7 @@ pub fn normalise(nodes: &mut [Node], next_leaf: &mut u16, next_cond: &mut u16) {
                 *id = *next_leaf;
                 *next_leaf += 1;
             }
-            Node::Seq(b) | Node::Scope(b) => normalise(b, next_leaf, next_cond),
+            Node::Seq(b) | Node::Scope(b) | Node::ScopeWith(b) => normalise(b, next_leaf, next_cond),
             Node::While(c, _, b) | Node::If(c, _, b) => {
                 *c = *next_cond;
                 *next_cond += 1;
@@ -698,6 +743,7 @@ fn trees(k: usize, memo: &mut BTreeMap<usize, Vec<Vec<Node>>>) -> Vec<Node> {
         // unary constructs with a body of k-1 nodes (body may be empty)
         for body in forests(k - 1, memo) {
             out.push(Node::Scope(body.clone()));
+            out.push(Node::ScopeWith(body.clone()));
             out.push(Node::While(0, vec![], body.clone()));
             out.push(Node::If(0, vec![], body.clone()));
             if k >= 2 {
@@ -727,6 +773,7 @@ fn variants(shape: &[Node], leaf_kinds: &[Effect]) -> Vec<Vec<Node>> {
                 Node::Leaf(id, _) => leaf_kinds.iter().map(|e| Node::Leaf(*id, e.clone())).collect(),
                 Node::Seq(b) => expand(b, leaf_kinds).into_iter().map(Node::Seq).collect(),
                 Node::Scope(b) => expand(b, leaf_kinds).into_iter().map(Node::Scope).collect(),
+                Node::ScopeWith(b) => expand(b, leaf_kinds).into_iter().map(Node::ScopeWith).collect(),
                 Node::While(c, _, b) => {
                     let bodies = expand(b, leaf_kinds);
                     let mut v = Vec::new();
@@ -788,7 +835,7 @@ fn exhaustive_cases(n: usize, leaf_kinds: Vec<Effect>) -> impl Iterator<Item = C
         vs.into_iter().flat_map(|mut tree| {
             let (mut a, mut b) = (0, 0);
             normalise(&mut tree, &mut a, &mut b);
-            let base = Case { tree, seeds: [Some(7), None, None, None, Some(3)], outer_scope: false, fault: None };
+            let base = Case { tree, seeds: [Some(7), None, None, None, Some(3)], outer_scope: false, fault: None, seed_iterations: Some(40) };
             let mut free = model_for(&base, None);
             let _ = free.run(&base.tree);
             let len = free.trace.len();
@@ -828,7 +875,8 @@ fn node_strategy() -> impl Strategy<Value = Node> {
             3 => (script_strategy(), body.clone()).prop_map(|(s, b)| Node::While(0, s, b)),
             2 => (script_strategy(), body.clone()).prop_map(|(s, b)| Node::If(0, s, b)),
             2 => (script_strategy(), body.clone(), body.clone()).prop_map(|(s, a, b)| Node::IfElse(0, s, a, b)),
-            3 => body.prop_map(Node::Scope),
+            3 => body.clone().prop_map(Node::Scope),
+            2 => body.prop_map(Node::ScopeWith),
         ]
     })
 }
@@ -839,11 +887,12 @@ fn case_strategy() -> impl Strategy<Value = Case> {
         [proptest::option::of(0i64..9), proptest::option::of(10i64..19), proptest::option::of(20i64..29), proptest::option::of(30i64..39), proptest::option::of(40i64..49)],
         any::<bool>(),
         prop_oneof![1 => Just(None), 3 => (0u16..64).prop_map(Some)],
+        prop_oneof![2 => Just(None), 1 => (0u32..60).prop_map(Some)],
     )
-        .prop_map(|(mut tree, seeds, outer_scope, fault)| {
+        .prop_map(|(mut tree, seeds, outer_scope, fault, seed_iterations)| {
             let (mut a, mut b) = (0, 0);
             normalise(&mut tree, &mut a, &mut b);
-            Case { tree, seeds, outer_scope, fault }
+            Case { tree, seeds, outer_scope, fault, seed_iterations }
         })
 }
 
